@@ -66,6 +66,39 @@ type Stack struct {
 	L1, L2    *fakemc.Server
 	MainSock  string
 	BatchSock string
+	lockMu    sync.Mutex
+	lockLog   []string // A<stripe><r|w> / R<stripe><r|w>, in the order the lockers were called
+}
+
+// logLocker wraps one of rend's key lockers and records acquisitions and releases.
+type logLocker struct {
+	inner  sync.Locker
+	st     *Stack
+	stripe int
+	mode   string
+}
+
+func (l *logLocker) Lock() {
+	l.inner.Lock()
+	l.st.lockMu.Lock()
+	l.st.lockLog = append(l.st.lockLog, fmt.Sprintf("A%d%s", l.stripe, l.mode))
+	l.st.lockMu.Unlock()
+}
+
+func (l *logLocker) Unlock() {
+	l.st.lockMu.Lock()
+	l.st.lockLog = append(l.st.lockLog, fmt.Sprintf("R%d%s", l.stripe, l.mode))
+	l.st.lockMu.Unlock()
+	l.inner.Unlock()
+}
+
+// TakeLockLog returns and clears the lock log.
+func (s *Stack) TakeLockLog() []string {
+	s.lockMu.Lock()
+	defer s.lockMu.Unlock()
+	out := s.lockLog
+	s.lockLog = nil
+	return out
 }
 
 var (
@@ -116,6 +149,14 @@ func GetStack(cfg StackCfg) *Stack {
 	locked := cfg.Locked != "none"
 	if locked {
 		o, lockset = orcas.Locked(o, cfg.Locked == "mr", uint8(cfg.Bits))
+		// wrap rend's own lockers (whatever kind it chose) with logging ones
+		w, r := orcas.VerifLockers(lockset)
+		lw, lr := make([]sync.Locker, len(w)), make([]sync.Locker, len(r))
+		for i := range w {
+			lw[i] = &logLocker{inner: w[i], st: st, stripe: i, mode: "w"}
+			lr[i] = &logLocker{inner: r[i], st: st, stripe: i, mode: "r"}
+		}
+		orcas.VerifSetLockers(lockset, lw, lr)
 	}
 	st.MainSock = sockPath("main-")
 	go server.ListenAndServe(server.UnixListener(st.MainSock), protocols, server.Default, o, h1, h2)
@@ -161,6 +202,7 @@ func (s *Stack) Reset() {
 		f.TakeLog()
 		f.Offset = 0
 	}
+	s.TakeLockLog()
 }
 
 // Client is one client connection to a rend port.
